@@ -448,7 +448,7 @@ def unsafe_index(n, facts):
                 if not base.startswith('self.'):
                     continue
                 if isinstance(x.slice, ast.Constant) and isinstance(x.slice.value, int):
-                    if x.slice.value in (0, -1) and '0 < len(%s)' % base not in texts:
+                    if x.slice.value in (0, -1) and '0 < len(%s)' % base not in texts and base not in texts:
                         out.append((norm(x), 'IndexError'))
                 else:
                     k = norm(x.slice)
@@ -457,7 +457,7 @@ def unsafe_index(n, facts):
             elif isinstance(x, ast.Call) and isinstance(x.func, ast.Attribute) and x.func.attr == 'pop' and \
                     norm(x.func.value).startswith('self.') and len(x.args) == 1 and isinstance(x.args[0], ast.Constant):
                 base = norm(x.func.value)
-                if '0 < len(%s)' % base not in texts:
+                if '0 < len(%s)' % base not in texts and base not in texts:
                     out.append((norm(x), 'IndexError'))
     return out
 
